@@ -14,9 +14,94 @@ MANIFEST = dict(
     technique="Coq theorem: a trace acceptor holds for every application session of an interpreter model of the screen layer over the MainLoop model; the same extracted acceptor judges traces of the real implementation; differential correspondence model<->/repo")
 
 
+_REINIT_SCRIPT = r"""
+import sys, threading, json, io, os
+sys.path.insert(0, sys.argv[1])
+from simpleline import App
+from simpleline.render.screen import UIScreen, InputState
+from simpleline.render.screen_handler import ScreenHandler
+from simpleline.input import input_handler as IH
+script = []
+block = threading.Event()
+def fake_input():
+    if script:
+        return script.pop(0)
+    block.wait(60); return ""
+IH.InputHandlerRequest._get_input = staticmethod(fake_input)
+log = []
+class S(UIScreen):
+    def refresh(self, args=None):
+        log.append("refresh"); super().refresh(args)
+    def show_all(self):
+        log.append("show"); super().show_all()
+    def input(self, args, key):
+        log.append("input:" + key)
+        if key == "x":
+            return InputState.DISCARDED
+        return key
+s = S()
+real_out = sys.stdout
+def epoch(lines):
+    del log[:]
+    script[:] = list(lines)
+    App.initialize()
+    ScreenHandler.schedule_screen(s)
+    sys.stdout = io.StringIO()
+    res = {}
+    def go():
+        try:
+            App.run(); res["o"] = "returned"
+        except BaseException as e:      # noqa
+            res["o"] = type(e).__name__
+    t = threading.Thread(target=go, daemon=True); t.start(); t.join(8)
+    sys.stdout = real_out
+    return [res.get("o", "HANG"), list(log)]
+out = [epoch(["r", "c"]), epoch(["x", "r", "c"]), epoch(["c"])]
+print(json.dumps(out)); sys.stdout.flush()
+os._exit(0)
+"""
+_REINIT_WANT = [["returned", ["refresh", "show", "input:r", "refresh", "show", "input:c"]],
+                ["returned", ["refresh", "show", "input:x", "input:r", "refresh", "show", "input:c"]],
+                ["returned", ["refresh", "show", "input:c"]]]
+
+
+def check_reinitialize(chk):
+    """The same screen OBJECT used by three applications in a row (App.initialize() again each time; DESIGN section 11: a
+    second initialize within one session is outside the model): judged directly on the implementation — what input() returns
+    decides the follow-up in the application that is running NOW: 'r' = one refresh and draw, a rejected line = a new prompt
+    only, 'c' = the screen closes and run() returns."""
+    import subprocess, json
+    import lib
+    p = subprocess.run([lib.PY, "-c", _REINIT_SCRIPT, lib.REPO], capture_output=True, text=True, timeout=120, env=lib.ENV)
+    chk.count(); chk.hist("reinitialize")
+    try:
+        r = json.loads(p.stdout.strip().splitlines()[-1])
+    except Exception:      # noqa
+        r = dict(error=(p.stderr or p.stdout)[-300:])
+    if r != _REINIT_WANT:
+        chk.violation("reinitialize", "C07 (directly on the implementation): one screen object used by three applications in a row "
+                      "(App.initialize() each time), lines r,c / x,r,c / c: expected %r, observed %r" % (_REINIT_WANT, r),
+                      dict(kind="reinitialize", result=r), found=True)
+    else:
+        chk.nontriv(dict(reinitialize=3))
+
+
 def run(chk, tier):
+    import lib
+    lib.use_repo()
+    check_reinitialize(chk)
     screen_check.run(chk, tier, 'C07')
 
 
 def replay(path):
+    import json
+    r = json.load(open(path)).get("replay") or {}
+    if r.get("kind") == "reinitialize":
+        import subprocess, lib
+        p = subprocess.run([lib.PY, "-c", _REINIT_SCRIPT, lib.REPO], capture_output=True, text=True, timeout=120, env=lib.ENV)
+        print(p.stdout.strip())
+        try:
+            return 0 if json.loads(p.stdout.strip().splitlines()[-1]) == _REINIT_WANT else 1
+        except Exception:      # noqa
+            return 1
     return screen_check.replay(path, 'C07')
